@@ -335,6 +335,18 @@ func (s *Stream) compileSimpleFieldInfo(fieldSpec string) *fieldProcessInfo {
 	return info
 }
 
+// isFunctionCallExpression reports whether a SELECT expression is routed to the expr-lang bridge as a
+// function call (textual heuristic: it contains parentheses). A CASE expression is excluded: expr-lang
+// has no CASE, so a CASE that merely contains a parenthesis or a function call (CASE WHEN (a > 2) ...,
+// CASE WHEN abs(a) > 2 ...) must stay with the hand-written evaluator, which supports both.
+func isFunctionCallExpression(expression string) bool {
+	if !strings.Contains(expression, "(") || !strings.Contains(expression, ")") {
+		return false
+	}
+	fields := strings.Fields(expression)
+	return len(fields) == 0 || !strings.EqualFold(fields[0], "CASE")
+}
+
 // compileExpressionInfo pre-compiles expression processing information
 func (s *Stream) compileExpressionInfo() {
 	// Initialize unnest function detection flag
@@ -361,7 +373,7 @@ func (s *Stream) compileExpressionInfo() {
 		exprInfo.processedExpr = processedExpr
 
 		// Pre-judge expression characteristics
-		exprInfo.isFunctionCall = strings.Contains(fieldExpr.Expression, "(") && strings.Contains(fieldExpr.Expression, ")")
+		exprInfo.isFunctionCall = isFunctionCallExpression(fieldExpr.Expression)
 		exprInfo.hasNestedFields = !exprInfo.isFunctionCall && strings.Contains(fieldExpr.Expression, ".")
 		exprInfo.needsBacktickPreprocess = bridge.ContainsBacktickIdentifiers(fieldExpr.Expression)
 
@@ -511,7 +523,7 @@ func (s *Stream) processExpressionFieldFallback(fieldName string, dataMap map[st
 	}
 
 	// Check if expression is a function call (contains parentheses)
-	isFunctionCall := strings.Contains(fieldExpr.Expression, "(") && strings.Contains(fieldExpr.Expression, ")")
+	isFunctionCall := isFunctionCallExpression(fieldExpr.Expression)
 
 	// Check if expression contains nested fields (but exclude dots in function calls)
 	hasNestedFields := false
